@@ -230,7 +230,9 @@ def run_case(case):
             pass  # the recorded location denotes a directory: where the payload lands is moot
         elif landed is None or landed != r_path and fsenc(landed) != fsenc(r_path):
             import posixpath
-            if landed is None or posixpath.normpath(landed) != posixpath.normpath(r_path):
+            if landed is None and posixpath.normpath(r_path) != r_path:
+                pass  # a location with '.' / '..' components may be impossible to create; refusing is fine
+            elif landed is None or posixpath.normpath(landed) != posixpath.normpath(r_path):
                 out.fail("restore_place", "trash-restore listed %r but the payload landed at %r "
                          "(exit %d, stderr %r)" % (r_path, landed, rr.code, rr.err[-200:]), **tags)
     if l_path is not None and l_path.startswith("/") and tk != "trash_dir":
